@@ -266,6 +266,8 @@ class Facts:
         voc = inline.load_vocabulary()
         self.inlined = inline.inline_new_helpers(self.raw, voc, strip_lt) if voc is not None and self.raw.get("crate") == "regexml" else []
         self.renamed_closures = inline.canonicalise_closures(self.raw) if self.inlined else {}
+        vf = inline.load_vocabulary_fields()
+        self.renamed_fields = inline.canonicalise_fields(self.raw, vf, strip_lt) if vf is not None and self.raw.get("crate") == "regexml" else {}
         self.crate = self.raw["crate"]
         self.nonce = self.raw.get("nonce")
         self.bodies = [Body(b) for b in self.raw["bodies"]]
